@@ -1,6 +1,6 @@
 (* Compiled on every run of the C12 check: pins each statement and prints its assumptions. *)
 From Coq Require Import NArith ZArith List Bool Ascii String.
-From SV Require Import c12.Model_C12 c12.Proofs_C12 c12.Properties_C12.
+From SV Require Import c12.Model_C12 c12.Proofs_C12 c12.Proofs_C12_Parse c12.Proofs_C12_ReadWrite c12.Proofs_C12_Total c12.Properties_C12.
 Import ListNotations.
 Open Scope N_scope.
 
@@ -17,6 +17,22 @@ Check (integer_roundtrip_lex : forall z t fuel, delim_start t ->
   lex_one fuel (write_int z ++ t) = LToks [TNum (NInt z)] (write_int z ++ t) t).
 Check (symbol_roundtrip : forall s, sym_plain s = true -> read_first s = ROk (DSym s) 0).
 Check (symbol_refuted : exists s, read_first (write pr_ascii (DSym s)) <> ROk (DSym s) 0).
+Check (number_roundtrip_rational : forall n d,
+  (1 < d)%Z -> Z.gcd n d = 1%Z -> read_first (write_rat n d) = ROk (DRat n d) 0).
+Check (rational_roundtrip_lex : forall n p t fuel, delim_start t ->
+  lex_one fuel ((write_int n ++ 47 :: write_nat (N.pos p)) ++ t)
+  = LToks [TNum (NRat n (Z.pos p))] ((write_int n ++ 47 :: write_nat (N.pos p)) ++ t) t).
+Check (read_write : forall pr d, rep d -> (height d <= 128)%nat -> read_first (write pr d) = ROk d 0).
+Check (lex_written_datum : forall pr d, rep d ->
+  forall t fuel, delim_start t -> (List.length (write_u pr d ++ t) < fuel)%nat ->
+  exists (ts : list stok) (x : stok),
+    map tokof (ts ++ [x]) = tk_of d /\ snd x = blen t /\
+    (List.length (ts ++ [x]) <= List.length (write_u pr d))%nat /\
+    lex_all fuel (write_u pr d ++ t) = option_map (app (ts ++ [x])) (lex_all (fuel - List.length (ts ++ [x])) t)).
+Check (parse_tokens_of_datum : forall d tot (ts ts0 : list stok) (x : stok),
+  rep d -> is_compound d -> map tokof ts = tk_of d -> ts = ts0 ++ [x] -> read_tokens tot ts = ROk d (snd x)).
+Check (lex_total : forall s, exists ts, lex s = Some ts /\ Forall (span_ok (blen s)) ts).
+Check (lex_one_total : forall fuel s0, (List.length s0 < fuel)%nat -> lstep_ok s0 (lex_one fuel s0)).
 Check (read_write_atom : forall pr d, atom_representable d -> read_first (write pr d) = ROk d 0).
 Check (write_within_limit : forall pr d, (height d <= 128)%nat -> write pr d = write_u pr d).
 Check (depth_refuted : read_first (write pr_ascii (nest 128 (DInt 1))) <> ROk (nest 128 (DInt 1)) 0).
@@ -39,6 +55,31 @@ Check (eq_refl : atom_representable = fun d => match d with
   | DStr s => Forall (fun c => valid_scalar c = true) s
   | DSym s => sym_plain s = true
   | _ => False end).
+Check (eq_refl : rep = fix rep (d : datum) : Prop :=
+  match d with
+  | DInt _ | DBool _ => True
+  | DRat n dn => (1 < dn)%Z /\ Z.gcd n dn = 1%Z
+  | DChar c => valid_scalar c = true
+  | DStr s => Forall (fun c => valid_scalar c = true) s
+  | DSym s => sym_plain s = true
+  | DList l => hd_ok l /\ (fix all (l : list datum) : Prop := match l with [] => True | x :: r => rep x /\ all r end) l
+  | DPair a b => hd_ok [a] /\ rep a /\ rep b /\ match b with DList _ => False | _ => True end
+  | DVec l => hd_ok l /\ (fix all (l : list datum) : Prop := match l with [] => True | x :: r => rep x /\ all r end) l
+  | DBytes l => Forall (fun b => b < 256) l
+  | DOpaque | DBad => False
+  end).
+Check (eq_refl : hd_ok = fun l => match l with DSym s :: _ => not_unq s | _ => True end).
+Check (eq_refl : not_unq = fun s => text_eqb s s_unquote = false /\ text_eqb s s_unquote_splicing = false).
+Check (eq_refl : write_rat = fun n d => write_int n ++ 47 :: write_int d).
+Check (eq_refl : span_ok = fun bound x => let '(_, a, b) := x in b <= a /\ a <= bound).
+Check (eq_refl : lex = fun s => lex_all (S (List.length s)) (strip_shebang s)).
+Check (eq_refl : suffix = fun r s => exists p, s = p ++ r).
+Check (eq_refl : sp_ok = fun bound sp => match sp with Some (a, b) => b <= a /\ a <= bound | None => True end).
+Check (eq_refl : lstep_ok = fun s r => match r with
+  | LEof => True
+  | LToks _ start rest => exists c s', start = c :: s' /\ suffix start s /\ suffix rest s'
+  | LErr _ start rest sp => exists c s', start = c :: s' /\ suffix start s /\ suffix rest start /\ sp_ok (blen start) sp
+  | LFuel => False end).
 Check (eq_refl : read_first = fun s => match lex s with Some ts => read_tokens (blen s) ts | None => RFuel end).
 
 Print Assumptions string_escape_roundtrip.
@@ -49,6 +90,13 @@ Print Assumptions integer_roundtrip.
 Print Assumptions integer_roundtrip_lex.
 Print Assumptions symbol_roundtrip.
 Print Assumptions symbol_refuted.
+Print Assumptions number_roundtrip_rational.
+Print Assumptions rational_roundtrip_lex.
+Print Assumptions read_write.
+Print Assumptions lex_written_datum.
+Print Assumptions parse_tokens_of_datum.
+Print Assumptions lex_total.
+Print Assumptions lex_one_total.
 Print Assumptions read_write_atom.
 Print Assumptions write_within_limit.
 Print Assumptions depth_refuted.
